@@ -597,7 +597,7 @@ def main():
         run(chk, 4000, 5, 600, 600)
     else:
         run(chk, 190, 3, 60, 120)
-        if chk.broken() and not chk.spec_failures:
+        if (chk.broken() or chk.anchor_changed) and not chk.spec_failures:
             chk.notes.append("escalated to a bigger budget after a broken proof/correspondence")
             run(chk, 1200, 5, 60, 0)
     chk.finish()
